@@ -2,18 +2,20 @@
 
 Level "other": (1) structural facts extracted with go/types from the compile
 path (every `range` over a map, every package-level variable, the fields of
-the objects cached between compilations, go/select/rand uses) are compared with
-the table below, in which every map-range site names its Lean obligation;
-(2) Lean theorems: permutation invariance of each site's fold where it holds,
-refutation witnesses where it does not (Package.Init, Compiler.parse with an
-alias naming two paths) and for history dependence (Initialized flag,
-Func.NumInstances); (3) an oracle on the real compiler: every corpus program
-is compiled k times on one Compiler, on fresh instances, in separate child
-processes and on a long-lived Compiler after other programs; circuit bytes and
-SSA listings are compared and every difference classified; (4) correspondence
-of the executable Lean models (DefineConstants order, Type.String search,
-Package.Init block order and anonymous numbering, cross-compilation state) with
-the real outputs.
+the objects a Compiler holds, go/select/rand uses, and the two repairs: every
+code-generating entry point of Compiler resets the package table before it
+parses (/repo 1e863b8), Package.Init and Compiler.parse iterate
+pkg.SortedImports() (/repo 6aa1568)) are compared with the table below, in
+which every map-range site names its Lean obligation; (2) Lean theorems:
+permutation invariance of every site's fold, of Package.Init and Compiler.parse
+as a whole, and history independence of a compilation; refutation witnesses
+are kept about the old definitions only; (3) an oracle on the real compiler:
+every corpus program is compiled k times on one Compiler, on fresh instances,
+in separate child processes and on a long-lived Compiler after other programs;
+circuit bytes and SSA listings are compared, every difference is a violation;
+(4) correspondence of the executable Lean models (DefineConstants order,
+Type.String search, Package.Init block order and anonymous numbering, labels of
+successive compilations) with the real outputs.
 """
 import hashlib
 import json
@@ -32,12 +34,17 @@ THEOREMS = [
     "Mpc.C08_maxLen_perm_invariant",
     "Mpc.C08_setCopy_perm_invariant",
     "Mpc.C08_setSubtract_perm_invariant",
-    "Mpc.C08_init_order_dependent",
-    "Mpc.C08_parse_alias_order_dependent",
-    "Mpc.C08_history_dependent_init",
-    "Mpc.C08_history_dependent_labels",
-    "Mpc.C08_history_independent_no_imports_partial",
-    "Mpc.C08_fixed_history_independent",
+    "Mpc.C08_sortedImports_perm_invariant",
+    "Mpc.C08_bytesLe_isOrder",
+    "Mpc.C08_init_perm_invariant",
+    "Mpc.C08_parse_perm_invariant",
+    "Mpc.C08_history_independent",
+    "Mpc.C08_repeated_compilations_equal",
+    "Mpc.C08_alias_resolution_observation",
+    "Mpc.C08_old_init_order_dependent",
+    "Mpc.C08_old_parse_alias_order_dependent",
+    "Mpc.C08_old_history_dependent_init",
+    "Mpc.C08_old_history_dependent_labels",
 ]
 
 # ------------------------------------------------------------------ expected facts
@@ -47,19 +54,12 @@ THEOREMS = [
 # following the loop.  `cls` / `lean` (documentation, not compared): the
 # classification and the Lean obligation that covers the site.
 SITES = [
-    {"file": "compiler/ast/package.go", "func": "Package.Init", "expr": "pkg.Imports", "type": "map[string]string",
-     "vars": "alias,name", "under_if_false": False,
-     "body": "{ p, ok := packages[alias] if !ok { return nil, fmt.Errorf(\"imported and not used: \\\"%s\\\"\", name) } "
-             "var err error block, err = p.Init(packages, block, ctx, gen) if err != nil { return nil, err } }",
-     "next": "for _, def := range pkg.Constants { err := pkg.defineConstant(def, ctx, gen) if err != nil { return nil, err } }",
-     "cls": "NOT order independent (appends SSA blocks, numbers anonymous values)",
-     "lean": "C08_init_order_dependent (refutation); known finding C08-init-order-ssa-*"},
-    {"file": "compiler/compiler.go", "func": "Compiler.parse", "expr": "pkg.Imports", "type": "map[string]string",
-     "vars": "alias,name", "under_if_false": False,
-     "body": "{ _, err := c.parsePkg(alias, name, source) if err != nil { return nil, err } }",
-     "next": "return pkg, nil",
-     "cls": "order independent only if every alias names one path in the import closure (harness checks the library)",
-     "lean": "C08_parse_alias_order_dependent (refutation); known finding C08-alias-collision"},
+    {"file": "compiler/ast/package.go", "func": "Package.SortedImports", "expr": "pkg.Imports", "type": "map[string]string",
+     "vars": "alias", "under_if_false": False,
+     "body": "{ aliases = append(aliases, alias) }", "next": "sort.Strings(aliases)",
+     "cls": "collect the keys then sort.Strings (the only range over an Imports map; Package.Init and Compiler.parse "
+            "iterate its result, fact sorted_import_loops)",
+     "lean": "C08_sortedImports_perm_invariant; whole loops: C08_init_perm_invariant, C08_parse_perm_invariant"},
     {"file": "compiler/ssa/instructions.go", "func": "init", "expr": "operands", "type": "map[ssa.Operand]string",
      "vars": "_,v", "under_if_false": False,
      "body": "{ if len(v) > maxOperandLength { maxOperandLength = len(v) } }", "next": "",
@@ -141,7 +141,7 @@ PKG_VARS = [
     ("types", "shortTypes", "map[types.Type]string"),
 ]
 
-# the objects a Compiler keeps between compilations (Lean: Cache = Initialized flags + NumInstances)
+# the objects a Compiler holds (Lean: Cache = Initialized flags + NumInstances; dropped by resetPackages)
 STRUCTS = {
     "compiler.Compiler": ["params *utils.Params", "packages map[string]*ast.Package", "pkgPath string"],
     "ast.Package": ["Name string", "Source string", "Annotations Annotations", "Initialized bool",
@@ -159,6 +159,24 @@ WATCHED_CALLS = [
     {"callee": "(*ssa.Rule).Match", "file": "compiler/ssa/peephole.go", "func": "Program.Peephole", "under_if_false": False},
     {"callee": "(ssa.Set).Copy", "file": "compiler/ssa/peephole.go", "func": "Rule.Match", "under_if_false": False},
 ]
+
+# repair 6aa1568: the loops over the imports iterate the sorted alias list
+SORTED_IMPORT_LOOPS = [
+    {"expr": "pkg.SortedImports()", "file": "compiler/ast/package.go", "func": "Package.Init", "under_if_false": False},
+    {"expr": "pkg.SortedImports()", "file": "compiler/compiler.go", "func": "Compiler.parse", "under_if_false": False},
+]
+# repair 1e863b8: every Compiler method that generates code (calls ast.NewCodegen) has the top-level statement
+# `c.resetPackages()` before its first `c.parse(`
+CODEGEN_ENTRIES = [
+    {"func": "Compiler.CompileSSA", "reset_before_parse": True},
+    {"func": "Compiler.Stream", "reset_before_parse": True},
+    {"func": "Compiler.compile", "reset_before_parse": True},
+]
+FUNC_BODIES = {
+    "Compiler.resetPackages": "{ c.packages = make(map[string]*ast.Package) }",
+    "Package.SortedImports": "{ aliases := make([]string, 0, len(pkg.Imports)) for alias := range pkg.Imports "
+                             "{ aliases = append(aliases, alias) } sort.Strings(aliases) return aliases }",
+}
 
 RAND_USES = [
     {"file": "compiler/circuits/allocator.go", "import": "unsafe"},     # unsafe.Sizeof for statistics
@@ -196,6 +214,11 @@ def check_facts(ctx, facts):
              facts.get("structs"), STRUCTS)
     ctx.fact("call sites of Peephole/liveness/Rule.Match/Set.Copy/Subtract/Array/SaveSymbolIDs (unreachable sites)",
              facts.get("watched_calls") or [], WATCHED_CALLS)
+    ctx.fact("repair 6aa1568 present: Package.Init and Compiler.parse iterate pkg.SortedImports()",
+             facts.get("sorted_import_loops") or [], SORTED_IMPORT_LOOPS)
+    ctx.fact("repair 1e863b8 present: compile / CompileSSA / Stream call c.resetPackages() before parsing",
+             facts.get("codegen_entries") or [], CODEGEN_ENTRIES)
+    ctx.fact("bodies of Compiler.resetPackages and Package.SortedImports", facts.get("func_bodies") or {}, FUNC_BODIES)
     ctx.fact("no `go` / `select` statements in the compile path", facts.get("go_stmts") or [], [])
     ctx.fact("math/rand, crypto/rand, unsafe, reflect, %p uses in the compile path", facts.get("rand_uses") or [], RAND_USES)
 
@@ -260,10 +283,14 @@ def run(ctx):
         "distinct dc/init/hist op lines")
     ctx.trusted += vlib.DEFAULT_TRUSTED + [
         "go/parser + go/types fact extractor in harness/cmd/c08/facts.go (source importer for the standard library)",
-        "the SSA-listing canonicaliser/classifier in harness/cmd/c08/compile.go (decides which differences are the known ones)",
+        "the SSA-listing canonicaliser/classifier in harness/cmd/c08/compile.go (names the kind of a difference in the report; every difference is a violation)",
         "Go runtime: per-process / per-iteration map iteration randomisation actually varies the hand-over order",
     ]
     ctx.assumptions += [
+        "history independence is proved for the model in which resetPackages empties everything a compilation "
+        "inherits from the Compiler (fields params, packages, pkgPath pinned by fact; pkgPath is a resolved directory "
+        "name, params is caller-owned) and package-level variables of the compile path are not written by a "
+        "compilation (their list is pinned; writes are only observed by the oracle)",
         "order dependence outside the enumerated map-range sites (os.File.Readdirnames order of a package directory, "
         "pointer values, scheduler) is only observed by the cross-process oracle, not proved absent",
         "Params.SymbolIDs (the `intern` builtin) is documented, caller-owned state that a compilation extends; it is "
@@ -271,21 +298,25 @@ def run(ctx):
         "sort.Slice is assumed to return a sorted permutation (C08_sorted_perm_unique then makes the result unique); "
         "the harness's expected DefineConstants order comes from a replica of the two statements whose source text "
         "is pinned by the map-range fact",
+        "Compiler.packages is keyed by the import alias: two packages with the same last path element are resolved "
+        "to one (deterministically since 6aa1568) - a resolution-correctness issue outside C08, see the Props header; "
+        "generated programs of that shape are part of the corpus",
         "the Init / compile models abstract a package to (imports, number of package-level variables, number of "
         "make-initialised variables) and a program to its function-label sequence; circuit bytes are compared by the "
         "oracle only",
         "the listing's anonymous-value numbering inside initialiser blocks is modelled for `make` initialisers only",
     ]
     return ctx.finish(
-        "C08 is FALSE for the code as it is; the check re-derives four defects on every run and reports anything "
-        "else. Theorems (Props/C08.lean): collect-then-sort (DefineConstants, Set.Array, SaveSymbolIDs) is permutation "
-        "invariant iff the sort keys are distinct, for any sorting algorithm; value search (Type.String, peephole "
-        "init) iff values are distinct; max, map copy, map deletion unconditionally; Package.Init and Compiler.parse "
-        "are NOT (witnesses); a compilation depends on earlier ones through Package.Initialized and Func.NumInstances "
-        "(witnesses), not for import-free programs (partial theorem). Tie: go/types facts pin every map-range site "
-        "(type, loop body, following statement), the package-level variables and the cached structs; the executable "
-        "models reproduce on real programs the DefineConstants order, Type.String, the init-block order + anonymous "
-        "numbering given the observed visiting order, and the labels of 3 successive compilations. Oracle: circuit "
-        "bytes and SSA listings across same-instance / fresh-instance / cross-process / history compilations, each "
-        "difference classified (init-missing, inst-labels, init-order, other); only the classified known ones are "
-        "tolerated.")
+        "Theorems (Props/C08.lean): every map-range site of the compile path is permutation invariant - collect-then-"
+        "sort (DefineConstants, SortedImports, Set.Array, SaveSymbolIDs) for any sorting algorithm when keys are "
+        "distinct, value search (Type.String, peephole init) when values are distinct, max / map copy / map deletion "
+        "unconditionally; Package.Init and Compiler.parse as whole recursive procedures give the same blocks / table "
+        "for all hand-over orders of all Imports maps; a compilation's output does not depend on earlier compilations "
+        "on the same Compiler (resetPackages). Refutations are kept for the pre-1e863b8 / pre-6aa1568 definitions only. "
+        "Tie: go/types facts pin every map-range site (type, loop body, following statement), require both repairs, pin "
+        "package-level variables and Compiler/Package/Func/Generator fields; the executable models reproduce on real "
+        "programs the DefineConstants order, Type.String, the init-block order + anonymous numbering from the import "
+        "graph alone (imports handed over in reverse order), and the labels of 3 successive compilations. Oracle: "
+        "circuit bytes and SSA listings across same-instance / fresh-instance / cross-process / history compilations; "
+        "any difference is a violation (no known finding is tolerated any more); the replay holds the program and both "
+        "SSA listings.")
